@@ -94,10 +94,12 @@ def write_evidence(prop, tier, seed, infos, wall, meta, violations, known_lines)
     os.replace(tmp, os.path.join(VERIF, "evidence", prop + ".json"))
 
 
-def check_property(prop, tier, seed):
+def check_property(prop, tier, seed, only=None):
     t0 = time.time()
     meta = registry.META[prop]
     jobs = registry.jobs_for(prop, tier)
+    if only:
+        jobs = [j for j in jobs if only in j.name]
     known = [k for k in load_known() if k.get("property") == prop and k.get("status") == "open"]
     kjobs = registry.known_jobs_for(prop, tier, known) if known else []
     infos, wall = runner.run_property(prop, tier, jobs + [kj for kj, _ in kjobs], meta, seed)
@@ -157,6 +159,7 @@ def replay(prop, path):
                 os.makedirs(wd, exist_ok=True)
                 try:
                     exe = runner.native_build(j, prop, wd)
+                    os.environ["VP_TRACE"] = "1"
                     rc, so, se = runner.native_replay(exe, path)
                     sys.stdout.write(so)
                     sys.stderr.write(se[-3000:])
@@ -191,6 +194,7 @@ def main(argv):
     tier = os.environ.get("VERIF_TIER", "quick")
     seed = int(os.environ.get("VERIF_SEED", "0") or 0)
     rp = None
+    only = None
     a = argv[1:]
     while a:
         if a[0] == "--tier":
@@ -198,6 +202,9 @@ def main(argv):
             a = a[2:]
         elif a[0] == "--replay":
             rp = a[1]
+            a = a[2:]
+        elif a[0] == "--only":
+            only = a[1]
             a = a[2:]
         else:
             print("unknown argument " + a[0])
@@ -207,4 +214,4 @@ def main(argv):
         return 2
     if rp:
         return replay(prop, rp)
-    return check_property(prop, tier, seed)
+    return check_property(prop, tier, seed, only)
